@@ -6,6 +6,7 @@ import (
 	"encoding/json"
 	"errors"
 	"fmt"
+	"io"
 	"net/http"
 	"time"
 
@@ -133,7 +134,12 @@ func (c *elasticClient) Get(ctx context.Context, url string) (data map[string]in
 	}
 	// a JSON null decodes into a nil map without an error
 	if data == nil {
-		err = errNotObject
+		return nil, errNotObject
+	}
+	// Decode reads one JSON value and leaves the rest of the body unread:
+	// the body is a JSON object only if nothing but white space follows
+	if _, terr := decoder.Token(); terr != io.EOF {
+		return nil, errNotObject
 	}
 	return
 }
